@@ -3,7 +3,7 @@ CONSTANTS
   Calls = {1, 2, 3}
   Tok = {1, 2, 3, 4, 5}
   Cap = 2
-  Params = {3, 4, 5, 8, 9, 17}
+  Params = {3, 4, 5, 8, 19, 20, 17}
 INVARIANTS TypeOK InflightDistinct NoCrossParamShare FailedSound
 PROPERTIES RetryReuses OkTokenRetired
 CHECK_DEADLOCK FALSE
